@@ -34,6 +34,7 @@ package types
 //@   ensures result1 == nil ==> result0 == len(p) && off + int64(result0) <= int64(self.size)
 //@   ensures errors.Is(result1, io.EOF) ==> result0 < len(p) && ((off >= int64(self.size) && result0 == 0) || (off < int64(self.size) && off + int64(result0) == int64(self.size)))
 //@   ensures (result1 == nil || errors.Is(result1, io.EOF)) ==> eqbytes(p, 0, self.data, int(off), result0)
+//@   ensures !errors.Is(result1, ErrCorrupt)
 
 //@ interface ReadableFile.ReadAt
 //@   assigns p[0:len(p)]
@@ -42,6 +43,7 @@ package types
 //@   ensures result1 == nil ==> result0 == len(p) && off + int64(result0) <= int64(self.size)
 //@   ensures errors.Is(result1, io.EOF) ==> result0 < len(p) && ((off >= int64(self.size) && result0 == 0) || (off < int64(self.size) && off + int64(result0) == int64(self.size)))
 //@   ensures (result1 == nil || errors.Is(result1, io.EOF)) ==> eqbytes(p, 0, self.data, int(off), result0)
+//@   ensures !errors.Is(result1, ErrCorrupt)
 
 //@ interface WritableFile.Close
 //@   assigns self.closed
